@@ -940,6 +940,32 @@ pub fn gen_case(rng: &mut Rng, pool_len: usize, focus: &str, nops: usize) -> Gen
         let cand_var = if rng.chance(1, 2) { a_var } else { 4 - a_var };
         ops.push(Op::InsertOrUpdate(keys[focus_b][16], slot_of(focus_b, 16) * VARIANTS + cand_var, true, rng.chance(1, 3)));
         ops.push(Op::Iter);
+    } else if c16_kind == 2 {
+        // the table limit: ten subnet-A nodes spread over the other buckets; bucket `focus_b` is full
+        // of nodes without IPv4 (head disconnected) and has a pending candidate from elsewhere; the
+        // candidate's record is updated into subnet A (refused by the table filter) and its timeout
+        // elapses: whatever is promoted, the table must not hold an eleventh subnet-A node
+        for i in 0..16 {
+            ops.push(Op::InsertOrUpdate(keys[focus_b][i], slot_of(focus_b, i) * VARIANTS + 3, i >= 3 && rng.chance(2, 3), false));
+        }
+        let mut placed = 0;
+        for j in 0..keys.len() {
+            if j == focus_b {
+                continue;
+            }
+            for i in 0..2 {
+                if placed < 10 && i < keys[j].len() {
+                    let var = if rng.chance(1, 4) { 4 } else { 0 };
+                    ops.push(Op::InsertOrUpdate(keys[j][i], slot_of(j, i) * VARIANTS + var, rng.chance(1, 2), false));
+                    placed += 1;
+                }
+            }
+        }
+        let cand_var = if rng.chance(1, 2) { 3 } else { 2 };
+        ops.push(Op::InsertOrUpdate(keys[focus_b][16], slot_of(focus_b, 16) * VARIANTS + cand_var, true, false));
+        ops.push(Op::UpdateNode(keys[focus_b][16], slot_of(focus_b, 16) * VARIANTS + if rng.chance(1, 3) { 4 } else { 0 }, None));
+        ops.push(Op::ForceReady(bucket_choice[focus_b]));
+        ops.push(Op::Iter);
     } else if c16_kind == 0 {
         // bucket `focus_b`: two subnet-A nodes and 14 nodes without IPv4, head disconnected; a
         // candidate without IPv4 becomes pending; its record is then updated into subnet A (or a
